@@ -1,0 +1,23 @@
+// SPDX-FileCopyrightText: 2020-present Open Networking Foundation <info@opennetworking.org>
+//
+// SPDX-License-Identifier: Apache-2.0
+
+//go:build verif
+
+package connection
+
+import (
+	"github.com/onosproject/onos-config/pkg/southbound/gnmi"
+	"github.com/onosproject/onos-config/pkg/store/topo"
+	"github.com/onosproject/onos-lib-go/pkg/controller"
+)
+
+// NewReconcilerForVerif returns the connection reconciler on its own, without the controller runtime
+func NewReconcilerForVerif(topo topo.Store, conns gnmi.ConnManager) controller.Reconciler {
+	return &Reconciler{conns: conns, topo: topo}
+}
+
+// NewWatchersForVerif returns the connection controller's watchers, in the order NewController registers them
+func NewWatchersForVerif(topo topo.Store, conns gnmi.ConnManager) []controller.Watcher {
+	return []controller.Watcher{&ConnWatcher{conns: conns}, &TopoWatcher{topo: topo}}
+}
